@@ -114,3 +114,8 @@ mod tests {
         Ok(())
     }
 }
+
+#[cfg(rustradio_verif)]
+pub mod verif_access {
+    include!(concat!(env!("RUSTRADIO_VERIF_DIR"), "/access/vec_to_stream.rs"));
+}
